@@ -37,7 +37,7 @@ def model(chk: Check, tier: str, prop: str = PROP):
     chk.add(states=r.distinct, transitions=r.generated, tlc_cfg=cfg)
 
 
-def run_traces(chk: Check, wd, prop: str, tier: str, seed: int, classify, directed=(), augment=None):
+def run_traces(chk: Check, wd, prop: str, tier: str, seed: int, classify, directed=(), augment=None, more_traces=()):
     num, depth = {"quick": (600, 16), "thorough": (6000, 16), "selftest": (600 if prop == "C16" else 120, 16)}[tier]
     beh = simulate("MC_Decoder", f"MC_Decoder_sim{prop}.cfg", num=num, depth=depth, seed=seed + 7, name=f"dsim{prop}",
                    only={"ev", "cfg"})
@@ -45,7 +45,7 @@ def run_traces(chk: Check, wd, prop: str, tier: str, seed: int, classify, direct
         beh = augment(list(beh))
     beh = list(beh) + list(directed)         # histories written down on purpose, in the format of the generated ones
     chk.add(directed_histories=len(directed))
-    traces = dr.replay(beh, random.Random(seed))
+    traces = dr.replay(beh, random.Random(seed)) + list(more_traces)      # (more_traces: histories run through real gateway clients)
     inp, outp = wd / "traces.json", wd / "verdicts.json"
     inp.write_text(json.dumps(traces))
     _, v = run_trace_tlc("Trace_Decoder", "Trace_Decoder.cfg", inp, outp, name=f"Trace_Decoder-{prop}", heap="3g")
